@@ -13,10 +13,11 @@
 #[verifier::external_body] pub struct Color { _o: u8 }
 #[verifier::external_body] pub struct WorksheetRest { _o: u8 }
 // the worksheet fields the user-model operations read directly (D5)
-pub struct Worksheet { pub name: String, pub color: Color, pub show_grid_lines: bool, pub state: SheetState, pub rest: WorksheetRest }
+pub struct Worksheet { pub name: String, pub color: Color, pub show_grid_lines: bool, pub state: SheetState, pub views: HashMap<u32, WorksheetView>, pub rest: WorksheetRest }
 #[verifier::external_body] pub struct ModelRest<'a> { _p: core::marker::PhantomData<&'a u8> }
 #[verifier::external_body] pub struct WorkbookRest { _o: u8 }
 impl Clone for Color { #[verifier::external_body] fn clone(&self) -> (r: Self) ensures r == *self { unimplemented!() } }
+#[derive(PartialEq, Eq, Structural)]   // the repository's enum derives PartialEq/Eq; Structural (ghost) ties `==` to spec equality
 //@type base/src/types.rs SheetState
 impl Clone for SheetState { #[verifier::external_body] fn clone(&self) -> (r: Self) ensures r == *self { unimplemented!() } }
 //@type base/src/user_model/history.rs RowData
@@ -28,7 +29,7 @@ impl Clone for Diff { #[verifier::external_body] fn clone(&self) -> (r: Self) en
 //@type base/src/user_model/history.rs DiffType
 //@type base/src/user_model/history.rs QueueDiffs
 //@type base/src/types.rs WorkbookView
-#[verifier::external_body] pub struct WorksheetView { _o: u8 }
+//@type base/src/types.rs WorksheetView
 pub struct Workbook { pub worksheets: Vec<Worksheet>, pub views: HashMap<u32, WorkbookView>, pub name: String, pub rest: WorkbookRest }
 pub struct Model<'a> { pub workbook: Workbook, pub view_id: u32, pub rest: ModelRest<'a> }
 //@type base/src/user_model/common.rs UserModel
